@@ -47,10 +47,13 @@ def main():
             g(dec(x))
     mod = klepto.safe if job.get('module') == 'safe' else klepto
     cache = B.make(job['backend'], job['root'], cached=True)
+    kwds = {}
+    if job.get('ignore'):
+        kwds['ignore'] = tuple(job['ignore'])
     if job.get('algo') == 'lru':
-        deco = mod.lru_cache(maxsize=1000, cache=cache, keymap=M.make_keymap(job['keymap']))
+        deco = mod.lru_cache(maxsize=1000, cache=cache, keymap=M.make_keymap(job['keymap']), **kwds)
     else:
-        deco = mod.inf_cache(cache=cache, keymap=M.make_keymap(job['keymap']))
+        deco = mod.inf_cache(cache=cache, keymap=M.make_keymap(job['keymap']), **kwds)
     fn = M.FUNCS[job['fn']][0]
     f = deco(fn)
     out = []
